@@ -33,8 +33,10 @@ def cases(tier, rng, dist):
         if rng.random() < 0.2:
             v.sort(reverse=rng.random() < 0.5)
         yield {"p": [str(x) for x in v], "m": rng.choice(list(METHODS)), "perm_seed": rng.randint(0, 10**6)}
-    for name in ["nonsense", "holm", "Bonferroni", "bh", ""]:
-        yield {"p": ["1/8", "1/2"], "m": name, "perm_seed": 0}
+    # unknown method names are rejected whatever the vector: one p-value, many, tied, sorted, all ones, zeros
+    for name in ["nonsense", "holm", "Bonferroni", "bh", "", "holm-bonferroni ", "benjamini hochberg", "BONFERRONI", "b", "none"]:
+        for v in (["1/8", "1/2"], ["1/32"], ["1"], ["0"], ["1/2", "1/2", "1/2"], ["1", "1"], ["1/8", "1/4", "1/2", "1"], [str(Fraction(k, 41)) for k in range(1, 41)]):
+            yield {"p": v, "m": name, "perm_seed": len(name) + len(v)}
 
 
 def textbook(p, m):
